@@ -289,7 +289,7 @@ func c13Chunks(c *vf.Ctx) {
 	if !c.Active(sub) {
 		return
 	}
-	n := c.N(1500, 80000)
+	n := c.N(6000, 80000)
 	for i := 0; i < n; i++ {
 		if !c.Mine(sub, i) {
 			continue
@@ -374,7 +374,7 @@ func c13Hostile(c *vf.Ctx) {
 	if !c.Active(sub) {
 		return
 	}
-	n := c.N(30000, 5000000)
+	n := c.N(150000, 5000000)
 	for i := 0; i < n; i++ {
 		if !c.Mine(sub, i) {
 			continue
